@@ -597,7 +597,7 @@ impl Shadow {
             let w = read_word(c);
             if let Some(ch) = self.obj_of_word(w) {
                 rel.push(ch);
-                if policy == 0 || (policy == 1 && i == 0) {
+                if policy == 0 || policy == 3 || (policy == 1 && i == 0) {
                     edges.push_back((ch, self.cell_stamp.get(&c).copied().flatten()));
                 }
             }
